@@ -366,6 +366,11 @@ func c16Trees() []histCase {
 	pm := (&spec.Data{}).Add("p", spec.Map(spec.T(spec.TAny), []string{"name", "age"}, []*spec.Value{spec.Any(spec.String("Mia")), spec.Any(spec.IntOf(spec.TInt, 7))}))
 	pn := (&spec.Data{}).Add("p", spec.Map(spec.T(spec.TAny), []string{"name", "Name", "age", "Age"}, []*spec.Value{spec.Any(spec.String("lower")), spec.Any(spec.String("UPPER")), spec.Any(spec.IntOf(spec.TInt, 1)), spec.Any(spec.IntOf(spec.TInt, 2))}))
 	ops = append(ops, histOp{Kind: "string", Name: "person", Data: pm}, histOp{Kind: "string", Name: "person", Data: pn})
+	// numbers that are equal but not the same (zero and negative zero, as float64 and float32): each prints as itself
+	zsrc := "{{ z }}|{{ z * 1.0 }}|{{ [z] }}|@dump(z)"
+	ops = append(ops, histOp{Kind: "evalstring", Src: zsrc, Data: (&spec.Data{}).Add("z", spec.Float64(0))},
+		histOp{Kind: "evalstring", Src: zsrc, Data: (&spec.Data{}).Add("z", spec.Float64(negZero()))},
+		histOp{Kind: "evalstring", Src: zsrc, Data: (&spec.Data{}).Add("z", spec.Float32(float32(negZero())))})
 	return []histCase{
 		{Files: files, Ops: ops},
 		{Files: files, Ops: ops, Debug: true},
@@ -395,7 +400,7 @@ func c16NonTrivial(cs histCase) bool {
 func TestC16_HistoriesEnum(t *testing.T) {
 	maxLen := harness.Pick(2, 3)
 	c := harness.New(t, "C16", "histories-enum",
-		fmt.Sprintf("every history of length <= %d (2 quick, 3 thorough) over 41 operation instances {String, Response, EvaluateString, EvaluateFile} x {succeeding, failing at run time, not found, given data of an unsupported kind (channel, function, complex number, maps with integer / boolean keys; top level and nested)} on a template directory with layout, component, loops and objects, under up to 6 configurations (debug on/off x no / working / missing / failing custom error page). Each operation's result (output, or error message + line + path, Response body + returned error) must equal the result of the same operation issued first after a fresh load; afterwards all operations still give their baselines, the configuration is unchanged and the caller's data is deep-equal to a copy. Non-trivial: a failing render or failing Response after a string/file evaluation or an error page. Distinct by construction.", maxLen))
+		fmt.Sprintf("every history of length <= %d (2 quick, 3 thorough) over 44 operation instances {String, Response, EvaluateString, EvaluateFile} x {succeeding, failing at run time, not found, given data of an unsupported kind (channel, function, complex number, maps with integer / boolean keys; top level and nested)} on a template directory with layout, component, loops and objects, under up to 6 configurations (debug on/off x no / working / missing / failing custom error page). Each operation's result (output, or error message + line + path, Response body + returned error) must equal the result of the same operation issued first after a fresh load; afterwards all operations still give their baselines, the configuration is unchanged and the caller's data is deep-equal to a copy. Non-trivial: a failing render or failing Response after a string/file evaluation or an error page. Distinct by construction.", maxLen))
 	defer c.Finish()
 	trees := c16Trees()
 	ntrees := len(trees)
@@ -434,7 +439,7 @@ func TestC16_HistoriesEnum(t *testing.T) {
 		}
 		rec(nil)
 	}
-	c.ExhaustivePart(fmt.Sprintf("all histories of length <= %d over 41 operations x %d configurations", maxLen, ntrees))
+	c.ExhaustivePart(fmt.Sprintf("all histories of length <= %d over 44 operations x %d configurations", maxLen, ntrees))
 }
 
 func TestC16_HistoriesRandom(t *testing.T) {
